@@ -45,6 +45,11 @@ def run(ctx: Ctx):
             if isinstance(s, ast.ImportFrom):
                 out.append("<import>")
                 continue
+            if isinstance(s, ast.Assign) and isinstance(s.value, ast.Call) and isinstance(s.value.func, ast.Attribute):
+                h = ctx.model.find_method(f.cls, s.value.func.attr) if f.cls is not None else None
+                if h is not None and any(isinstance(c, ast.Call) and norm(c.func) in ("cp.Problem", "cvxpy.Problem") for c in ast.walk(h.node)):
+                    out.append("<solve step>")      # extracted solve step (formulation compared by R-C11-1 after inlining)
+                    continue
             t = norm(s)
             t = t.replace("SoftAlignment", "Alignment")
             out.append(t)
